@@ -35,6 +35,7 @@ def run_history(prop, seed, run, force=None, max_steps=None):
             count += 1
             if count > nsteps + 8:
                 break
+        world.final_checks()
     except Violation as v:
         violation = {"invariant": v.invariant, "class": v.cls, "step": v.step_index, "details": v.details}
     except HarnessError as e:
@@ -64,6 +65,7 @@ def replay_steps(prop, steps):
     try:
         for step in steps:
             world.execute(step)
+        world.final_checks()
     except Violation as v:
         violation = {"invariant": v.invariant, "class": v.cls, "step": v.step_index, "details": v.details}
     except HarnessError as e:
